@@ -106,7 +106,15 @@ class USBIsochronousStreamOutEndpoint(Elaboratable):
         endpoint_number_matches  = (tokenizer.endpoint == self._endpoint_number)
         targeting_endpoint       = endpoint_number_matches & tokenizer.is_out
 
-        sufficient_space         = (fifo.space_available >= self._max_packet_size)
+        # Decide whether we have room for a packet once, on the packet's first byte, and stick to that
+        # decision for the rest of the packet -- so a packet is always either buffered whole or dropped whole.
+        # (The FIFO's free space shrinks as we buffer the packet, and grows whenever the consumer reads.)
+        space_for_new_packet     = (fifo.space_available >= self._max_packet_size)
+        accepting_packet         = Signal()
+        sufficient_space         = Mux(rx_first, space_for_new_packet, accepting_packet)
+
+        with m.If(rx.next & rx.valid & rx_first):
+            m.d.usb += accepting_packet.eq(space_for_new_packet)
 
         okay_to_receive          = targeting_endpoint & sufficient_space
         data_is_lost             = okay_to_receive & rx.next & rx.valid & fifo.full
